@@ -225,6 +225,28 @@ def rule_esc_name(ctx, f):
                   db["span"], detail="keys via serialize_name")
 
 
+def rule_dict_reader(ctx, f):
+    ctx.rule("C04-DICT", "the dictionary reader stores every key / value pair it reads: each turn of its loop that parses a value reaches the insert (an entry whose "
+             "value is null is an entry - `/Next null` written, `/Next null` read)")
+    b = f.body("parser::parse_dictionary_object")
+    if b is None:
+        ctx.lost("C04-DICT", "parser::parse_dictionary_object")
+        return
+    cfg = CFG(b)
+    loops = cfg.loops()
+    vals = [bi for bi, t in F.calls(b) if last_seg(F.callee_name(t)) in ("parse_with_lexer_ctx", "_parse_with_lexer_ctx") and any(bi in body for body in loops.values())]
+    ins = [bi for bi, t in F.calls(b) if last_seg(F.callee_name(t)) == "insert" and "Dictionary" in F.callee_name(t) + " ".join(a["s"] for a in t.get("arg_tys", []))]
+    ctx.floor("C04-DICT", len(vals), 1, "value parse inside the dictionary loop")
+    for v in vals:
+        heads = [h for h, body in loops.items() if v in body]
+        h = min(heads, key=lambda x: len(loops[x]))
+        backs = [a for a, h2 in cfg.back_edges() if h2 == h]
+        # from the successful value parse, every way round the loop passes the insert (error exits leave the function)
+        ok = bool(ins) and bool(backs) and all(cfg.all_paths_pass(b["blocks"][v]["term"]["target"], [a], set(ins)) for a in backs)
+        ctx.check(ok, "C04-DICT", "parse_dictionary_object#every-entry", "a value that was parsed can be dropped without being stored in the dictionary (a test between the parse and the "
+                  "insert): the entry is written but does not read back", b["blocks"][v]["term"]["span"], detail="dict.insert(key, value) on every path after the value parse")
+
+
 def rule_panic(ctx, f):
     ctx.rule("C04-PANIC", "the value writers contain no panic construct (panic!/assert!/unwrap/expect/indexing)")
     n = 0
@@ -301,6 +323,7 @@ def run(ctx):
     rule_esc_string(ctx, f)
     rule_esc_name(ctx, f)
     rule_panic(ctx, f)
+    rule_dict_reader(ctx, f)
     rule_depth(ctx, f)
     return ctx.finish(
         "Static analysis: writers are summarised as regular expressions over the reader's byte classes (syntax tree for format literals, "
